@@ -13,41 +13,46 @@ theorem filterMap_append_nil {α β : Type} (f : α → Option β) (l em : List 
 
 section
 variable {p : PS} {e' : EP} {g' : Ghost} {i y : Nat} {o o' : Obj} {em : List Msg} {dq : List Nat}
+  {ba' hd fbaT : List Msg}
 
 /-- The update does not touch what the sending role shows. -/
 theorem hS_of_eq (h1 : o'.credit = o.credit) (h2 : o'.finishSent = o.finishSent) (h3 : g'.wlog i = p.ga.wlog i)
     (h4 : em.filterMap toItem = []) :
     ∀ oR fwd bwd r eof l, DirRel o oR fwd bwd (p.ga.wlog i) r eof l →
       ∃ l', DirRel o' oR (fwd ++ em) bwd (g'.wlog i) r eof l' :=
-  fun _ _ _ _ _ l d => ⟨l, d.congr h1 h2 rfl rfl rfl rfl rfl rfl (filterMap_append_nil _ _ _ h4) rfl h3 rfl rfl⟩
+  fun _ _ _ _ _ l d => ⟨l, d.congr h1 h2 rfl rfl rfl rfl rfl rfl (filterMap_append_nil _ _ _ h4) rfl h3 rfl rfl rfl⟩
 
 /-- The update does not touch what the receiving role shows. -/
 theorem hR_of_eq (h1 : o'.cap = o.cap) (h2 : o'.threshold = o.threshold) (h3 : o'.senderAlive = o.senderAlive)
     (h4 : o'.rxq = o.rxq) (h5 : o'.buf = o.buf) (h6 : o'.recvdSince = o.recvdSince)
-    (h7 : g'.rlog i = p.ga.rlog i) (h8 : g'.eof i = p.ga.eof i) (h9 : em.filterMap ackOf = []) :
+    (h7 : g'.rlog i = p.ga.rlog i) (h8 : g'.eof i = p.ga.eof i) (h9 : em.filterMap ackOf = [])
+    (h10 : o'.rxOpen = o.rxOpen) :
     ∀ oS fwd bwd w l, DirRel oS o fwd bwd w (p.ga.rlog i) (p.ga.eof i) l →
       ∃ l', DirRel oS o' fwd (bwd ++ em) w (g'.rlog i) (g'.eof i) l' :=
-  fun _ _ _ _ l d => ⟨l, d.congr rfl rfl h1 h2 h3 h4 h5 h6 rfl (filterMap_append_nil _ _ _ h9) rfl h7 h8⟩
+  fun _ _ _ _ l d => ⟨l, d.congr rfl rfl h1 h2 h3 h4 h5 h6 rfl (filterMap_append_nil _ _ _ h9) rfl h7 h8 h10⟩
 
 /-- An object-local update with the footprint of the object's flow preserves the invariant. -/
 theorem inv_of_local (h : Inv p) (s : Eff (· = y) p.a e') (u : LocalUpd p.a e' i o' em dq)
     (ho : p.a.objs[i]? = some o) (hoy : o.fid = y) (ho' : o'.fid = y)
     (hem : ∀ m ∈ em, Msg.flow? m = some y ∧ m.isConnect = false)
-    (hS : ∀ oR fwd bwd r eof l, DirRel o oR fwd bwd (p.ga.wlog i) r eof l →
+    (hba : ba' = p.ba ∨ ∃ m, p.ba = m :: ba' ∧ ∀ z, Msg.flow? m = some z → z = y)
+    (hba1 : fl y (pathBA p) = hd ++ fbaT) (hba2 : fl y (ba' ++ p.b.outq) = fbaT)
+    (hS : ∀ oR fwd bwd r eof l, DirRel o oR fwd (hd ++ bwd) (p.ga.wlog i) r eof l →
             ∃ l', DirRel o' oR (fwd ++ em) bwd (g'.wlog i) r eof l')
-    (hR : ¬ y ∈ dq → ∀ oS fwd bwd w l, DirRel oS o fwd bwd w (p.ga.rlog i) (p.ga.eof i) l →
+    (hR : ¬ y ∈ dq → ∀ oS fwd bwd w l, DirRel oS o (hd ++ fwd) bwd w (p.ga.rlog i) (p.ga.eof i) l →
             ∃ l', DirRel oS o' fwd (bwd ++ em) w (g'.rlog i) (g'.eof i) l')
     (hHalf : o.rxq = [] → o.buf = [] → o.recvdSince = 0 → o.senderAlive = true →
-            o'.rxq = [] ∧ o'.buf = [] ∧ o'.recvdSince = 0 ∧ o'.senderAlive = true ∧ ∀ m ∈ em, ackOf m = none)
+            o'.rxq = [] ∧ o'.buf = [] ∧ o'.recvdSince = 0 ∧ o'.senderAlive = true ∧ (∀ m ∈ em, ackOf m = none) ∧
+            g'.rlog i = p.ga.rlog i ∧ g'.eof i = p.ga.eof i)
     (hcap : o'.cap = o.cap ∧ o'.threshold = o.threshold)
     (hdq : ∀ x ∈ dq, x = y)
     (hg : ∀ k, k ≠ i → g'.wlog k = p.ga.wlog k ∧ g'.rlog k = p.ga.rlog k ∧ g'.eof k = p.ga.eof k) :
-    Inv { p with a := e', ga := g' } := by
+    Inv { p with a := e', ga := g', ba := ba' } := by
   have hi : i < p.a.objs.length := by
     rcases Nat.lt_or_ge i p.a.objs.length with h1 | h1
     · exact h1
     · simp [List.getElem?_eq_none h1] at ho
-  refine inv_of_eff (ba' := p.ba) h s (Or.inl rfl) ?_ ?_ ?_
+  refine inv_of_eff (ba' := ba') h s hba ?_ ?_ ?_
   · intro x hx k hk
     by_cases hki : k = i
     · subst hki
@@ -64,7 +69,7 @@ theorem inv_of_local (h : Inv p) (s : Eff (· = y) p.a e') (u : LocalUpd p.a e' 
     exact h.ghA k (by have := s.len; omega)
   · intro x hx
     subst hx
-    exact phase_upd (h.phase _) u ho hoy ho' hem hS hR hHalf hcap hdq
+    exact phase_upd (h.phase _) u ho hoy ho' hem hba1 hba2 hS hR hHalf hcap hdq
 
 end
 
@@ -124,21 +129,21 @@ theorem inv_write {p : PS} (h : Inv p) (hd : Nat) (d : Bytes) :
     rw [hhi]
     rcases appWrite_local p.a hd i o d hh h.runA.outClosed with ⟨hf, hres, u⟩ | ⟨hf, hd0, hres, u⟩ | ⟨hf, hd0, hc, hres, u⟩ | ⟨hf, hd0, hc, hres, u⟩
     · rw [hres]
-      exact inv_of_local (g' := p.ga) h s u ho rfl rfl (by simp) (hS_of_eq rfl rfl rfl rfl)
-        (fun _ => hR_of_eq rfl rfl rfl rfl rfl rfl rfl rfl rfl) (fun a b c d => ⟨a, b, c, d, by simp⟩) ⟨rfl, rfl⟩ (by simp)
+      exact inv_of_local (ba' := p.ba) (hd := []) (fbaT := fl _ (pathBA p)) (g' := p.ga) h s u ho rfl rfl (by simp) (Or.inl rfl) rfl rfl (hS_of_eq rfl rfl rfl rfl)
+        (fun _ => hR_of_eq rfl rfl rfl rfl rfl rfl rfl rfl rfl rfl) (fun a b c d => ⟨a, b, c, d, by simp, by simp, by simp⟩) ⟨rfl, rfl⟩ (by simp)
         (fun _ _ => ⟨rfl, rfl, rfl⟩)
     · rw [hres]
       subst hd0
-      exact inv_of_local (g' := p.ga.addW i []) h s u ho rfl rfl (by simp) (hS_of_eq rfl rfl (by simp) rfl)
-        (fun _ => hR_of_eq rfl rfl rfl rfl rfl rfl rfl rfl rfl) (fun a b c d => ⟨a, b, c, d, by simp⟩) ⟨rfl, rfl⟩ (by simp)
+      exact inv_of_local (ba' := p.ba) (hd := []) (fbaT := fl _ (pathBA p)) (g' := p.ga.addW i []) h s u ho rfl rfl (by simp) (Or.inl rfl) rfl rfl (hS_of_eq rfl rfl (by simp) rfl)
+        (fun _ => hR_of_eq rfl rfl rfl rfl rfl rfl rfl rfl rfl rfl) (fun a b c d => ⟨a, b, c, d, by simp, by simp, by simp⟩) ⟨rfl, rfl⟩ (by simp)
         (fun k hk => addW_other _ _ _ _ hk)
     · rw [hres]
-      exact inv_of_local (g' := p.ga) h s u ho rfl rfl (by simp) (hS_of_eq rfl rfl rfl rfl)
-        (fun _ => hR_of_eq rfl rfl rfl rfl rfl rfl rfl rfl rfl) (fun a b c d => ⟨a, b, c, d, by simp⟩) ⟨rfl, rfl⟩ (by simp)
+      exact inv_of_local (ba' := p.ba) (hd := []) (fbaT := fl _ (pathBA p)) (g' := p.ga) h s u ho rfl rfl (by simp) (Or.inl rfl) rfl rfl (hS_of_eq rfl rfl rfl rfl)
+        (fun _ => hR_of_eq rfl rfl rfl rfl rfl rfl rfl rfl rfl rfl) (fun a b c d => ⟨a, b, c, d, by simp, by simp, by simp⟩) ⟨rfl, rfl⟩ (by simp)
         (fun _ _ => ⟨rfl, rfl, rfl⟩)
     · rw [hres]
-      refine inv_of_local (g' := p.ga.addW i d) h s u ho rfl rfl ?_ ?_
-        (fun _ => hR_of_eq rfl rfl rfl rfl rfl rfl rfl rfl rfl) (fun a b c d => ⟨a, b, c, d, by simp⟩) ⟨rfl, rfl⟩ (by simp)
+      refine inv_of_local (ba' := p.ba) (hd := []) (fbaT := fl _ (pathBA p)) (g' := p.ga.addW i d) h s u ho rfl rfl ?_ (Or.inl rfl) rfl rfl ?_
+        (fun _ => hR_of_eq rfl rfl rfl rfl rfl rfl rfl rfl rfl rfl) (fun a b c d => ⟨a, b, c, d, by simp, by simp, by simp⟩) ⟨rfl, rfl⟩ (by simp)
         (fun k hk => addW_other _ _ _ _ hk)
       · intro m hm; simp at hm; subst hm; exact ⟨rfl, rfl⟩
       · intro oR fwd bwd r eof l dr
@@ -194,27 +199,27 @@ theorem inv_read {p : PS} (h : Inv p) (hd n : Nat) :
     · rcases appRead_local p.a hd i n o hh h.runA.outClosed hne with
         ⟨hb, hres, u⟩ | ⟨hb, f, rest, hq, hres, hcase⟩ | ⟨hb, hq, ha, hres, he⟩ | ⟨hb, hq, ha, hres, u⟩
       · rw [hres]
-        refine inv_of_local (g' := p.ga.addR i (o.buf.take n)) h s u ho rfl rfl (by simp) (hS_of_eq rfl rfl (by simp) rfl)
+        refine inv_of_local (ba' := p.ba) (hd := []) (fbaT := fl _ (pathBA p)) (g' := p.ga.addR i (o.buf.take n)) h s u ho rfl rfl (by simp) (Or.inl rfl) rfl rfl (hS_of_eq rfl rfl (by simp) rfl)
           ?_ (fun _ b _ _ => absurd b hb) ⟨rfl, rfl⟩ (by simp) (fun k hk => addR_other _ _ _ _ hk)
         intro _ oS fwd bwd w l dr
         rw [addR_rlog_self, List.append_nil]
         exact ⟨_, dr.readBuf n hb⟩
       · rw [hres]
         rcases hcase with ⟨ht, u⟩ | ⟨ht, u⟩
-        · refine inv_of_local (g' := p.ga.addR i (f.take n)) h s u ho rfl rfl ?_ (hS_of_eq rfl rfl (by simp) rfl)
+        · refine inv_of_local (ba' := p.ba) (hd := []) (fbaT := fl _ (pathBA p)) (g' := p.ga.addR i (f.take n)) h s u ho rfl rfl ?_ (Or.inl rfl) rfl rfl (hS_of_eq rfl rfl (by simp) rfl)
             ?_ (fun a _ _ _ => by rw [hq] at a; cases a) ⟨rfl, rfl⟩ (by simp) (fun k hk => addR_other _ _ _ _ hk)
           · intro m hm; simp at hm; subst hm; exact ⟨rfl, rfl⟩
           · intro _ oS fwd bwd w l dr
             rw [addR_rlog_self]
             exact ⟨_, (dr.readFrame o.fid n f rest hb hq).1 ht⟩
-        · refine inv_of_local (g' := p.ga.addR i (f.take n)) h s u ho rfl rfl (by simp) (hS_of_eq rfl rfl (by simp) rfl)
+        · refine inv_of_local (ba' := p.ba) (hd := []) (fbaT := fl _ (pathBA p)) (g' := p.ga.addR i (f.take n)) h s u ho rfl rfl (by simp) (Or.inl rfl) rfl rfl (hS_of_eq rfl rfl (by simp) rfl)
             ?_ (fun a _ _ _ => by rw [hq] at a; cases a) ⟨rfl, rfl⟩ (by simp) (fun k hk => addR_other _ _ _ _ hk)
           intro _ oS fwd bwd w l dr
           rw [addR_rlog_self, List.append_nil]
           exact ⟨_, (dr.readFrame o.fid n f rest hb hq).2 ht⟩
       · rw [hres, he]; exact h
       · rw [hres]
-        refine inv_of_local (g' := p.ga.setEof i) h s u ho rfl rfl (by simp) (hS_of_eq rfl rfl (by simp) rfl)
+        refine inv_of_local (ba' := p.ba) (hd := []) (fbaT := fl _ (pathBA p)) (g' := p.ga.setEof i) h s u ho rfl rfl (by simp) (Or.inl rfl) rfl rfl (hS_of_eq rfl rfl (by simp) rfl)
           ?_ (fun _ _ _ d => by rw [ha] at d; cases d) ⟨rfl, rfl⟩ (by simp) (fun k hk => setEof_other _ _ _ hk)
         intro _ oS fwd bwd w l dr
         rw [setEof_self, List.append_nil]
@@ -222,7 +227,7 @@ theorem inv_read {p : PS} (h : Inv p) (hd n : Nat) :
     · obtain ⟨o', em, u, ss, ak⟩ := appRead_coarse p.a hd i n o hh h.runA.outClosed
       obtain ⟨gw, gk⟩ := readGhost_facts p.ga (appRead p.a hd n).2 i
       obtain ⟨hemf, hemi⟩ := acks_flow ak
-      refine inv_of_local h s u ho rfl ss.fid hemf (hS_of_eq ss.credit ss.finishSent (by rw [gw]) hemi)
+      refine inv_of_local (ba' := p.ba) (hd := []) (fbaT := fl _ (pathBA p)) h s u ho rfl ss.fid hemf (Or.inl rfl) rfl rfl (hS_of_eq ss.credit ss.finishSent (by rw [gw]) hemi)
         ?_ ?_ ⟨ss.cap, ss.threshold⟩ (by simp) (fun k hk => ⟨by rw [gw], gk k hk⟩)
       · intro _ oS fwd bwd w l dr
         exfalso; apply hne
@@ -245,8 +250,8 @@ theorem inv_shutdown {p : PS} (h : Inv p) (hd : Nat) : Inv { p with a := (appShu
     rw [hfid_of hh] at s
     rcases appShutdown_local p.a hd i o hh h.runA.outClosed with ⟨hf, hres⟩ | ⟨hf, u⟩
     · rw [hres]; exact h
-    · refine inv_of_local (g' := p.ga) h s u ho rfl rfl ?_ ?_
-        (fun _ => hR_of_eq rfl rfl rfl rfl rfl rfl rfl rfl rfl) (fun a b c d => ⟨a, b, c, d, by simp⟩) ⟨rfl, rfl⟩ (by simp)
+    · refine inv_of_local (ba' := p.ba) (hd := []) (fbaT := fl _ (pathBA p)) (g' := p.ga) h s u ho rfl rfl ?_ (Or.inl rfl) rfl rfl ?_
+        (fun _ => hR_of_eq rfl rfl rfl rfl rfl rfl rfl rfl rfl rfl) (fun a b c d => ⟨a, b, c, d, by simp, by simp, by simp⟩) ⟨rfl, rfl⟩ (by simp)
         (fun _ _ => ⟨rfl, rfl, rfl⟩)
       · intro m hm; simp at hm; subst hm; exact ⟨rfl, rfl⟩
       · intro oR fwd bwd r eof l dr
@@ -267,8 +272,8 @@ theorem inv_dropStream {p : PS} (h : Inv p) (hd : Nat) (dl : List Nat) :
     rw [hfid_of hh] at s
     have u := appDropStream_local p.a hd i o hh h.runA.dead
     -- after the drop the notification is queued, so the receiving role is not claimed any more
-    refine inv_of_local (g' := { p.ga with dropped := dl }) h s u ho rfl rfl (by simp) (hS_of_eq rfl rfl rfl rfl)
-      (fun hn => absurd (by simp) hn) (fun a b c d => ⟨rfl, b, c, d, by simp⟩) ⟨rfl, rfl⟩ (by simp)
+    refine inv_of_local (ba' := p.ba) (hd := []) (fbaT := fl _ (pathBA p)) (g' := { p.ga with dropped := dl }) h s u ho rfl rfl (by simp) (Or.inl rfl) rfl rfl (hS_of_eq rfl rfl rfl rfl)
+      (fun hn => absurd (by simp) hn) (fun a b c d => ⟨rfl, b, c, d, by simp, rfl, rfl⟩) ⟨rfl, rfl⟩ (by simp)
       (fun _ _ => ⟨rfl, rfl, rfl⟩)
 
 end Penguin.Pair
